@@ -257,6 +257,8 @@ namespace hs
             sut = r.chance(1, 8) ? std::string("temp") : pick(r, STACKS);
         else if (profile == "C07")
             sut = pick(r, ITERS);
+        else if (profile == "C14H") // the single-thread life of a temporary_allocator nest on an explicit stack
+            sut = "temp";
         else if (profile == "C08")
         {
             switch (r.below(6))
@@ -444,7 +446,7 @@ namespace hs
             if (r.chance(1, 10))
                 p.add("corsweep", {0, (long long)r.below(6), (long long)r.below(2)});
         }
-        if (profile == "C06")
+        if (profile == "C06" || profile == "C14H")
         {
             w_top = 14;
             w_unw = 14;
@@ -456,7 +458,7 @@ namespace hs
         {
             fam_w[0] = 1;
             fam_w[1] = 6;
-            fam_w[2] = 0;
+            fam_w[2] = r.chance(1, 2) ? 2 : 0; // (the composable family books nothing in and nothing out)
         }
         if (profile == "C08")
             fam_w[2] = 6;
